@@ -263,6 +263,8 @@ def check_clause(ctx, r, tag, replay):
     s = r.simulation_setting
     kind = est_kind(s.estimator)
     qos = [qo for er in r.estimation_results for qo in er.estimated_qoperation_sequence]
+    if isinstance(qos[0], MProcess):
+        return
     para = bool(qos[0].on_para_eq_constraint)
     eq_eps = 1e-13 if para else 1e-5
     if not all(margin_ok(o, max(eq_eps, 1e-12), 1e-5) for o in qos):
@@ -308,6 +310,7 @@ def oracle(ctx, volume=1):
     flow_clauses(ctx, g, volume)
     single_setting_clauses(ctx, g, volume)
     noise_clauses(ctx, g, volume)
+    seed_clause(ctx, g, volume)
     ctx.rule = ("one case = one real simulation run compared with its repetition / another worker configuration / its "
                 "re-estimation, one generated noisy object, or one evaluation of the built-in physicality check; "
                 "non-trivial = more than one repetition and sample size, or a violating estimate; distinct by configuration")
@@ -319,7 +322,7 @@ def oracle(ctx, volume=1):
 
 
 def flow_clauses(ctx, g, volume):
-    nconf = (3 if ctx.quick else 6) * volume
+    nconf = (4 if ctx.quick else 10) * volume
     for ci in range(nconf):
         n_rep = int(g.integers(2, 5))
         num_data = [int(g.choice([10, 20])), int(g.choice([50, 100]))]
@@ -330,8 +333,18 @@ def flow_clauses(ctx, g, volume):
                      {"name": "loss-fwse-invcov", "est": "loss", "loss": "fwse", "mode": "inverse_sample_covariance", "para": True},
                      {"name": "loss-eq-only", "est": "loss", "loss": "fwse", "mode": "identity", "para": False, "eq": True, "ineq": False}]
         true = [("state", "z0"), ("state", "a"), ("state", "x1")][ci % 3]
+        testers = None
+        st_testers = [("state", "x0"), ("state", "y0"), ("state", "z0"), ("state", "z1")]
+        pv_testers = [("povm", "x"), ("povm", "y"), ("povm", "z")]
+        light = [CASES_BASIC[0], CASES_BASIC[2], CASES_BASIC[3]]
+        if ci % 10 == 3:        # a POVM as the unknown
+            true, testers, cases = ("povm", "z"), st_testers, light
+        elif ci % 10 == 6:      # a gate as the unknown
+            true, testers, cases = ("gate", "hadamard"), st_testers + pv_testers, light
+        elif ci % 10 == 8:      # a measurement process as the unknown
+            true, testers, cases = ("mprocess", "z-type1"), st_testers + pv_testers, light[:2]
         n_sample = 2 if (ci % 3 == 2 or (ci % 2 == 0 and not ctx.quick)) else 1
-        cfg = base_cfg(g, n_rep, num_data, cases, true=true, n_sample=n_sample)
+        cfg = base_cfg(g, n_rep, num_data, cases, true=true, testers=testers, n_sample=n_sample)
         if ci % 3 == 2:
             cfg["noise"] = {"method": "random_effective_lindbladian",
                             "para": {"lindbladian_base": "identity", "strength_h_part": 0.1, "strength_k_part": 0.1}}
@@ -348,7 +361,7 @@ def flow_clauses(ctx, g, volume):
         for d in diff_fp(fp0, fingerprint(run_flow(cfg))):
             ctx.violate(f"C15/flow/rerun/{d}", f"the same settings and seeds gave different {d}", rep)
         # (2) different degrees of parallelism at each level
-        counts = ([2] if ci % 3 == 2 else [2, 4]) if ctx.quick else [2, 3, 4]
+        counts = ([2] if ci % 3 == 2 or ci % 10 in (3, 6, 8) else [2, 4]) if ctx.quick else [2, 3, 4]
         for level in LEVELS:
             for nj in counts:
                 pm = {level: nj}
@@ -384,6 +397,8 @@ def flow_clauses(ctx, g, volume):
         c_sys = base[0].simulation_setting.true_object.composite_system
         for r in base:
             check_clause(ctx, r, f"stored{ci}", dict(rep, clause="check"))
+            if not isinstance(r.simulation_setting.true_object, State):
+                continue
             para = bool(r.estimation_results[0].estimated_qoperation.on_para_eq_constraint)
             good = 0.6 * qobj.rand_density(g, 2) + 0.4 * np.eye(2) / 2
             u = qobj.rand_unitary(g, 2)
@@ -546,6 +561,23 @@ def noise_clauses(ctx, g, volume):
             ctx.violate(f"C15/random-lindbladian/{mode}/ignores-generator", "different generator seed, identical object", rep)
         if not a.is_physical(atol_eq_const=1e-9, atol_ineq_const=1e-9):
             ctx.violate(f"C15/random-lindbladian/{mode}/not-physical", f"strengths {sh}, {sk}: generated object is not physical", rep)
+
+
+def seed_clause(ctx, g, volume):
+    """the two hypotheses of `flow_streams_distinct`, observed on numpy: spawned children are reproducible and pairwise
+    different, and generators seeded with them start differently"""
+    from numpy.random import Generator, MT19937, SeedSequence
+    for t in range((20 if ctx.quick else 200) * volume):
+        seed = int(g.integers(0, 2 ** 31))
+        n = int(g.integers(2, 9))
+        a = [tuple(s.generate_state(4)) for s in SeedSequence(seed).spawn(n)]
+        b = [tuple(s.generate_state(4)) for s in SeedSequence(seed).spawn(n)]
+        first = [float(Generator(MT19937(s)).random()) for s in SeedSequence(seed).spawn(n)]
+        ctx.case(("spawn", seed, n))
+        if a != b or len(set(a)) != n or len(set(first)) != n:
+            ctx.violate("C15/seed-sequence/spawn-not-injective-or-not-reproducible", f"seed {seed}, {n} children",
+                        {"kind": "spawn", "seed": seed, "n": n})
+    ctx.count("seed-sequence spawn checks", (20 if ctx.quick else 200) * volume)
 
 
 def search(ctx):
